@@ -264,8 +264,9 @@ func (e *Engine) VerifyFunction(key string) (res *FnResult) {
 				cond, _ := c.evalClause(en.FnName, ct.PkgPath, all, rs, entry)
 				parts = append(parts, f.Implies(rs.R, cond))
 			}
-			// later postconditions may rely on earlier ones (each is reported on its own if it fails)
-			fr.obligeClause(chain, "ensures", f.And(parts...), en, fmt.Sprintf("postcondition %d", k))
+			// each postcondition is proved on its own, from the path conditions of the return points only
+			one := &State{R: f.True(), heap: map[string]*Term{}, alpha: out.alpha}
+			fr.obligeClause(one, "ensures", f.And(parts...), en, fmt.Sprintf("postcondition %d", k))
 		}
 		if recvNowPtr {
 			// the contract was written for a value receiver, which cannot modify the caller's object
